@@ -28,7 +28,9 @@ props! {
     c08 => "C08",
     c11 => "C11",
     c12 => "C12",
+    c14 => "C14",
     c31 => "C31",
+    c32 => "C32",
 }
 
 pub mod c05syn;
